@@ -139,6 +139,8 @@ type executor struct {
 	regions       []*Region
 	globalReg     map[string]*Region
 	mergeMemo     map[mergeKey]*Val
+	// base array of the stack region being merged (its undef initial contents), "" otherwise
+	mergingStackInit string
 	stack         []string
 	steps         int
 	siteOrd       map[*Instr]int
@@ -228,7 +230,9 @@ func (e *executor) operand(st *State, v *Value) (*Val, error) {
 		case TInt:
 			return e.fresh("undef", v.Ty.Bits), nil
 		case TPtr:
-			return e.invalidPtr(smt.Term{}), nil
+			u := e.invalidPtr(smt.Term{})
+			u.Undef = true
+			return u, nil
 		}
 		return nil, unsupported("aggregate undef operand")
 	case VGlobal:
@@ -682,7 +686,12 @@ func (e *executor) mergeStates(sts []*State) *State {
 		for _, id := range idl {
 			a, b := s.regMem(e, id), out.regMem(e, id)
 			if a != b {
+				e.mergingStackInit = ""
+				if r := e.regions[id]; r.Kind == rkStack && r.init != nil {
+					e.mergingStackInit = r.init.Base.S
+				}
 				out.mem[id] = e.mergeMem(c, a, b)
+				e.mergingStackInit = ""
 			}
 		}
 		if s.pktLen.S != out.pktLen.S {
